@@ -8,7 +8,7 @@ open FMap
 /-- split a msg-handler equation `handler … = (s', out)` along all branches; the branches that
     return the original state are closed by `Tr.refl` -/
 macro "msplit " h:ident : tactic =>
-  `(tactic| (simp only at $h:ident; (repeat' split at $h:ident) <;>
+  `(tactic| ((try simp only at $h:ident); (repeat' split at $h:ident) <;>
       (try (simp only [Prod.mk.injEq] at $h:ident; obtain ⟨hh, -⟩ := $h:ident; subst hh; exact Tr.refl _))))
 
 /-- after `msplit`: substitute the result state of a successful branch -/
@@ -202,5 +202,459 @@ theorem tr_writeAckV1 {s s' : ChainState} {p : PacketV1} {a : Option Hex}
       split
       · subst_vars; rw [hnone] at hk; cases hk
       · exact hk }
+
+/-! ### IBC v2 -/
+
+theorem tr_msgSendPacketV2 {s s' : ChainState} {env : Env} {src : Id} {tt : Nat} {payloads : List Payload}
+    {apps : List AppV2} {out : Out} (h : msgSendPacketV2 s env src tt payloads apps = (s', out)) : Tr s s' := by
+  unfold msgSendPacketV2 at h
+  msplit h
+  msubst h
+  obtain ⟨cpId, pfx, hcp, hseq, hs⟩ := sendPacketV2_ok ‹sendPacketV2 s env src tt payloads = Except.ok _›
+  subst hs
+  unfold commitSendV2
+  exact {
+    log := .inr ⟨.send2 src _ payloads.length, rfl, trivial⟩
+    nextSend := by
+      intro id n hn
+      simp only [ChainState.logAdd, FMap.get_set]
+      by_cases hid : id = src
+      · subst hid; simp_all
+      · simp_all
+    commitV2New := by
+      intro c q h0 h1
+      simp only [ChainState.logAdd, FMap.get_set] at h1 ⊢
+      split at h1
+      · rename_i he; cases he; simp_all
+      · contradiction }
+
+theorem tr_recv2 {s : ChainState} {env : Env} {p : PacketV2} {s1 : ChainState}
+    (h1 : recvPacketV2 s env p = .ok s1) (n : Nat) (B : FMap String String)
+    (A : FMap (Id × Nat) (List Hex)) (Y : FMap (Id × Nat) PacketV2)
+    (hack : A = s1.ackV2 ∨ ∃ a, s1.ackV2.get (p.dst, p.seq) = none ∧ A = s1.ackV2.set (p.dst, p.seq) a) :
+    Tr s { s1 with log := s1.log ++ [.recv2 p.dst p.seq n], app := B, ackV2 := A, asyncV2 := Y } := by
+  obtain ⟨hcp, hnone, rfl⟩ := recvPacketV2_ok h1
+  exact {
+    log := .inr ⟨.recv2 p.dst p.seq n, rfl, hnone, by simp⟩
+    ackV2 := by
+      intro k v hk
+      rcases hack with h | ⟨a, hn, h⟩
+      · rw [h]; exact hk
+      · simp only [h, FMap.get_set]; split
+        · subst_vars; simp only at hn; rw [hn] at hk; cases hk
+        · exact hk }
+
+theorem tr_msgRecvPacketV2 {s s' : ChainState} {env : Env} {p : PacketV2} {apps : List AppV2} {out : Out}
+    (h : msgRecvPacketV2 s env p apps = (s', out)) : Tr s s' := by
+  unfold msgRecvPacketV2 done at h
+  msplit h
+  all_goals msubst h
+  all_goals (have hr := ‹recvPacketV2 s env p = Except.ok _›)
+  all_goals first
+    | -- synchronous acknowledgement
+      (obtain ⟨_, _, hnone, _, rfl⟩ := writeAckV2_ok ‹writeAckV2 _ p _ = Except.ok _›
+       exact tr_recv2 hr _ _ _ _ (.inr ⟨_, hnone, rfl⟩))
+    | -- asynchronous
+      exact tr_recv2 hr _ _ _ _ (.inl rfl)
+
+theorem tr_asyncWriteAckV2 {s s' : ChainState} {dst : Id} {seq : Nat} {acks : List Hex}
+    (h : asyncWriteAckV2 s dst seq acks = .ok s') : Tr s s' := by
+  obtain ⟨p, s1, hp, hw, rfl⟩ := asyncWriteAckV2_ok h
+  obtain ⟨_, _, hnone, _, rfl⟩ := writeAckV2_ok hw
+  exact {
+    log := .inl rfl
+    ackV2 := by
+      intro k v hk
+      simp only [FMap.get_set]; split
+      · subst_vars; rw [hnone] at hk; cases hk
+      · exact hk }
+
+theorem tr_terminal2 {s : ChainState} {src : Id} {q : Nat} (e : Event) (B : FMap String String)
+    (he : (∃ a, e = .ack2 src q a) ∨ (∃ n, e = .timeout2 src q n))
+    (hcp : s.cpV2.get src ≠ none) (hc : s.commitV2.get (src, q) ≠ none) :
+    Tr s { s with commitV2 := s.commitV2.del (src, q), app := B, log := s.log ++ [e] } := by
+  have hev : EvOK s { s with commitV2 := s.commitV2.del (src, q), app := B, log := s.log ++ [e] } e := by
+    rcases he with ⟨a, rfl⟩ | ⟨n, rfl⟩ <;> exact ⟨hcp, hc, by simp⟩
+  exact { log := .inr ⟨e, rfl, hev⟩ }
+
+theorem tr_msgAcknowledgementV2 {s s' : ChainState} {env : Env} {p : PacketV2} {acks : List Hex} {apps : List AppV2}
+    {out : Out} (h : msgAcknowledgementV2 s env p acks apps = (s', out)) : Tr s s' := by
+  unfold msgAcknowledgementV2 at h
+  msplit h
+  all_goals
+    msubst h
+    obtain ⟨hcp, hc, rfl⟩ := acknowledgePacketV2_ok ‹acknowledgePacketV2 s env p = Except.ok _›
+    exact tr_terminal2 _ _ (.inl ⟨_, rfl⟩) hcp (by simp [hc])
+
+theorem tr_msgTimeoutV2 {s s' : ChainState} {env : Env} {p : PacketV2} {apps : List AppV2}
+    {out : Out} (h : msgTimeoutV2 s env p apps = (s', out)) : Tr s s' := by
+  unfold msgTimeoutV2 at h
+  msplit h
+  all_goals
+    msubst h
+    obtain ⟨hcp, hc, rfl⟩ := timeoutPacketV2_ok ‹timeoutPacketV2 s env p = Except.ok _›
+    exact tr_terminal2 _ _ (.inr ⟨_, rfl⟩) hcp (by simp [hc])
+
+/-! ### channel handshake -/
+
+theorem tr_chanNew (s : ChainState) (port : Id) (k : String) (B : FMap String String) (chv : Channel)
+    (hst : chv.state = .init ∨ chv.state = .tryopen) :
+    Tr s { s with nextChanSeq := s.nextChanSeq + 1, log := s.log ++ [.hs k port (fmtChan s.nextChanSeq)], app := B,
+                  chan := s.chan.set (port, fmtChan s.nextChanSeq) chv,
+                  nextSend := s.nextSend.set (fmtChan s.nextChanSeq) 1,
+                  nextRecv := s.nextRecv.set (port, fmtChan s.nextChanSeq) 1,
+                  nextAck := s.nextAck.set (port, fmtChan s.nextChanSeq) 1 } := by
+  exact {
+    log := .inr ⟨.hs k port (fmtChan s.nextChanSeq), rfl, trivial⟩
+    chanOld := by
+      intro p c ch h
+      by_cases hc : c = fmtChan s.nextChanSeq
+      · left; exact hc
+      · right
+        refine ⟨ch, ?_, rfl, rfl, rfl, .inl rfl, by simp⟩
+        simp only [FMap.get_set]
+        rw [if_neg]; exact h
+        intro he; cases he; exact hc rfl
+    chanNew := by
+      intro p c ch' h0 h1
+      simp only [FMap.get_set] at h1
+      split at h1
+      · rename_i he; cases he
+        cases h1
+        exact ⟨rfl, rfl, hst, by simp, by simp, by simp⟩
+      · rw [h0] at h1; cases h1
+    nextRecv := by
+      intro p c n hn
+      by_cases hc : c = fmtChan s.nextChanSeq
+      · right; right; exact hc
+      · left; simp only [FMap.get_set]; rw [if_neg]; exact hn
+        intro he; cases he; exact hc rfl
+    nextAck := by
+      intro p c n hn
+      by_cases hc : c = fmtChan s.nextChanSeq
+      · right; right; exact hc
+      · left; simp only [FMap.get_set]; rw [if_neg]; exact hn
+        intro he; cases he; exact hc rfl
+    nextSend := by
+      intro id n hn
+      by_cases hc : id = fmtChan s.nextChanSeq
+      · right; right; left; exact hc
+      · left; simp only [FMap.get_set]; rw [if_neg hc]; exact hn }
+
+theorem tr_msgChanOpenInit {s s' : ChainState} {env : Env} {port : Id} {o : Order} {hops : List Id} {cpPort : Id}
+    {version : String} {app : AppV1} {out : Out}
+    (h : msgChanOpenInit s env port o hops cpPort version app = (s', out)) : Tr s s' := by
+  unfold msgChanOpenInit at h
+  msplit h
+  msubst h
+  exact tr_chanNew s port "init" _ _ (.inl rfl)
+
+theorem tr_msgChanOpenTry {s s' : ChainState} {env : Env} {port : Id} {o : Order} {hops : List Id} {cpPort cpChan : Id}
+    {cpVersion : String} {app : AppV1} {out : Out}
+    (h : msgChanOpenTry s env port o hops cpPort cpChan cpVersion app = (s', out)) : Tr s s' := by
+  unfold msgChanOpenTry at h
+  msplit h
+  msubst h
+  exact tr_chanNew s port "try" _ _ (.inr rfl)
+
+/-- an existing channel end is rewritten (handshake ack/confirm, close), optionally registering the alias -/
+theorem tr_chanUpdate (s : ChainState) (port chan : Id) (k : String) (B : FMap String String) (ch ch' : Channel)
+    (C : FMap Id (Id × List Hex)) (A : FMap Id Id)
+    (hch : s.chan.get (port, chan) = some ch)
+    (h1 : ch'.ordering = ch.ordering) (h2 : ch'.cpPort = ch.cpPort) (h3 : ch'.hops = ch.hops)
+    (h4 : ChanTrans ch.state ch'.state)
+    (h5 : (ch'.version ≠ ch.version ∨ ch'.cpChan ≠ ch.cpChan) → ch.state = .init ∧ ch'.state = .opened)
+    (hC : C = s.cpV2 ∨ ∃ v, C = s.cpV2.set chan v) :
+    Tr s { s with chan := s.chan.set (port, chan) ch', cpV2 := C, alias := A,
+                  log := s.log ++ [.hs k port chan], app := B } := by
+  exact {
+    log := .inr ⟨.hs k port chan, rfl, trivial⟩
+    chanOld := by
+      intro p c ch0 h0
+      right
+      simp only [FMap.get_set]
+      split
+      · rename_i he; cases he
+        rw [hch] at h0; cases h0
+        exact ⟨ch', rfl, h1, h2, h3, h4, h5⟩
+      · exact ⟨ch0, h0, rfl, rfl, rfl, .inl rfl, by simp⟩
+    chanNew := by
+      intro p c ch0 h0 hn
+      simp only [FMap.get_set] at hn
+      split at hn
+      · rename_i he; cases he; rw [hch] at h0; cases h0
+      · rw [h0] at hn; cases hn
+    cpV2 := by
+      intro id hid
+      rcases hC with rfl | ⟨v, rfl⟩
+      · exact hid
+      · simp only [FMap.get_set]; split <;> simp_all
+    cpV2New := by
+      intro id h0 hn
+      rcases hC with rfl | ⟨v, rfl⟩
+      · exact absurd h0 hn
+      · simp only [FMap.get_set] at hn
+        split at hn
+        · subst_vars; left; exact ⟨port, by simp [hch]⟩
+        · exact absurd h0 hn }
+
+theorem registerAlias_ok {s s' : ChainState} {chanId : Id} {ch : Channel} (h : registerAlias s chanId ch = .ok s') :
+    ∃ C A, s' = { s with cpV2 := C, alias := A } ∧ (C = s.cpV2 ∨ ∃ v, C = s.cpV2.set chanId v) := by
+  unfold registerAlias at h
+  esplit h
+  · simp only [Except.ok.injEq] at h
+    exact ⟨_, _, h.symm, .inr ⟨_, rfl⟩⟩
+  · simp only [Except.ok.injEq] at h
+    exact ⟨_, _, h.symm, .inl rfl⟩
+
+theorem tr_msgChanOpenAck {s s' : ChainState} {env : Env} {port chan cpChan : Id} {cpVersion : String} {app : AppV1}
+    {out : Out} (h : msgChanOpenAck s env port chan cpChan cpVersion app = (s', out)) : Tr s s' := by
+  unfold msgChanOpenAck at h
+  msplit h
+  msubst h
+  obtain ⟨C, A, hs, hC⟩ := registerAlias_ok ‹registerAlias _ chan _ = Except.ok _›
+  subst hs
+  have hch := ‹s.chan.get (port, chan) = some _›
+  have hst := ‹¬_ ≠ ChanState.init›
+  simp only [ne_eq, Decidable.not_not] at hst
+  exact tr_chanUpdate s port chan "ack" _ _ _ C A hch rfl rfl rfl (.inr (.inl ⟨hst, rfl⟩))
+    (fun _ => ⟨hst, rfl⟩) hC
+
+theorem tr_msgChanOpenConfirm {s s' : ChainState} {env : Env} {port chan : Id} {app : AppV1}
+    {out : Out} (h : msgChanOpenConfirm s env port chan app = (s', out)) : Tr s s' := by
+  unfold msgChanOpenConfirm at h
+  msplit h
+  msubst h
+  obtain ⟨C, A, hs, hC⟩ := registerAlias_ok ‹registerAlias _ chan _ = Except.ok _›
+  subst hs
+  have hch := ‹s.chan.get (port, chan) = some _›
+  have hst := ‹¬_ ≠ ChanState.tryopen›
+  simp only [ne_eq, Decidable.not_not] at hst
+  exact tr_chanUpdate s port chan "confirm" _ _ _ C A hch rfl rfl rfl (.inr (.inr (.inl ⟨hst, rfl⟩)))
+    (fun h => by simp at h) (by simpa using hC)
+
+theorem tr_msgChanCloseInit {s s' : ChainState} {env : Env} {port chan : Id} {app : AppV1}
+    {out : Out} (h : msgChanCloseInit s env port chan app = (s', out)) : Tr s s' := by
+  unfold msgChanCloseInit at h
+  msplit h
+  msubst h
+  have hch := ‹_ = some _›
+  have hst := ‹¬ _ = ChanState.closed›
+  exact tr_chanUpdate s port chan "closeInit" _ _ _ s.cpV2 s.alias hch rfl rfl rfl (.inr (.inr (.inr ⟨hst, rfl⟩)))
+    (fun h => by simp at h) (.inl rfl)
+
+theorem tr_msgChanCloseConfirm {s s' : ChainState} {env : Env} {port chan : Id} {app : AppV1}
+    {out : Out} (h : msgChanCloseConfirm s env port chan app = (s', out)) : Tr s s' := by
+  unfold msgChanCloseConfirm at h
+  msplit h
+  msubst h
+  have hch := ‹_ = some _›
+  have hst := ‹¬ _ = ChanState.closed›
+  exact tr_chanUpdate s port chan "closeConfirm" _ _ _ s.cpV2 s.alias hch rfl rfl rfl (.inr (.inr (.inr ⟨hst, rfl⟩)))
+    (fun h => by simp at h) (.inl rfl)
+
+/-! ### connections, clients, authorisation -/
+
+theorem addConnectionToClient_ok {s s' : ChainState} {client connId : Id}
+    (h : addConnectionToClient s client connId = .ok s') : ∃ X, s' = { s with clientConns := X } := by
+  unfold addConnectionToClient at h
+  esplit h
+  simp only [Except.ok.injEq] at h
+  exact ⟨_, h.symm⟩
+
+theorem tr_msgConnOpenInit {s s' : ChainState} {env : Env} {client cpClient : Id} {cpPrefix : Hex}
+    {version : Option Version} {delay : Nat} {out : Out}
+    (h : msgConnOpenInit s env client cpClient cpPrefix version delay = (s', out)) : Tr s s' := by
+  unfold msgConnOpenInit at h
+  msplit h
+  all_goals
+    msubst h
+    obtain ⟨X, hX⟩ := addConnectionToClient_ok ‹addConnectionToClient _ _ _ = Except.ok _›
+    subst hX
+    exact { log := .inl rfl }
+
+theorem tr_msgConnOpenTry {s s' : ChainState} {env : Env} {client cpClient cpConn : Id} {cpPrefix : Hex}
+    {versions : List Version} {delay : Nat} {out : Out}
+    (h : msgConnOpenTry s env client cpClient cpConn cpPrefix versions delay = (s', out)) : Tr s s' := by
+  unfold msgConnOpenTry at h
+  msplit h
+  all_goals
+    msubst h
+    obtain ⟨X, hX⟩ := addConnectionToClient_ok ‹addConnectionToClient _ _ _ = Except.ok _›
+    subst hX
+    exact { log := .inl rfl }
+
+theorem tr_msgConnOpenAck {s s' : ChainState} {env : Env} {connId cpConn : Id} {version : Version} {out : Out}
+    (h : msgConnOpenAck s env connId cpConn version = (s', out)) : Tr s s' := by
+  unfold msgConnOpenAck at h
+  msplit h
+  msubst h
+  exact { log := .inl rfl }
+
+theorem tr_msgConnOpenConfirm {s s' : ChainState} {env : Env} {connId : Id} {out : Out}
+    (h : msgConnOpenConfirm s env connId = (s', out)) : Tr s s' := by
+  unfold msgConnOpenConfirm at h
+  msplit h
+  msubst h
+  exact { log := .inl rfl }
+
+theorem route_ok {s : ChainState} {cid : Id} (h : route s cid = .ok ()) : IsClientId cid := by
+  unfold route at h
+  split at h
+  · cases h
+  · rename_i ctype n hp
+    split at h
+    · cases h
+    · split at h
+      · cases h
+      · exact ⟨ctype, n, hp, by simp_all⟩
+
+theorem tr_msgCreateClient {s s' : ChainState} {env : Env} {ctype : String} {out : Out}
+    (h : msgCreateClient s env ctype = (s', out)) : Tr s s' := by
+  unfold msgCreateClient at h
+  msplit h
+  msubst h
+  have hr : route _ (fmtClient ctype s.nextClientSeq) = Except.ok _ := ‹_›
+  have hcid : IsClientId (fmtClient ctype s.nextClientSeq) := route_ok hr
+  exact {
+    log := .inl rfl
+    clientStateNew := by
+      intro id h0 h1
+      simp only [FMap.get_set] at h1
+      split at h1
+      · subst_vars; exact ⟨hcid, ⟨ctype, rfl⟩, rfl⟩
+      · exact absurd h0 h1
+    creatorNew := by
+      intro id h0 h1
+      simp only [FMap.get_set] at h1 ⊢
+      split at h1
+      · subst_vars; simp
+      · exact absurd h0 h1 }
+
+theorem tr_msgUpdateClient {s s' : ChainState} {env : Env} {cid : Id} {out : Out}
+    (h : msgUpdateClient s env cid = (s', out)) : Tr s s' := by
+  unfold msgUpdateClient at h
+  msplit h
+
+theorem tr_msgRegisterCounterparty {s s' : ChainState} {env : Env} {cid cpClient : Id} {pfx : List Hex} {out : Out}
+    (h : msgRegisterCounterparty s env cid cpClient pfx = (s', out)) : Tr s s' := by
+  unfold msgRegisterCounterparty at h
+  msplit h
+  msubst h
+  have hcr : s.creator.get cid ≠ none := by
+    have := ‹¬s.creator.get cid ≠ some env.signer›
+    simp only [ne_eq, Decidable.not_not] at this
+    rw [this]; simp
+  have hcp : s.cpV2.get cid = none := by
+    rw [← FMap.has_false_iff]; simpa using ‹¬s.cpV2.has cid = true›
+  exact {
+    log := .inl rfl
+    nextSend := by
+      intro id n hn
+      simp only [FMap.get_set]
+      split
+      · subst_vars; right; right; right; exact ⟨hcp, hcr⟩
+      · left; exact hn
+    cpV2 := by
+      intro id hid
+      simp only [FMap.get_set]; split <;> simp_all
+    cpV2New := by
+      intro id h0 h1
+      simp only [FMap.get_set] at h1
+      split at h1
+      · subst_vars; right; exact hcr
+      · exact absurd h0 h1 }
+
+theorem tr_msgUpdateClientConfig {s s' : ChainState} {env : Env} {cid : Id} {relayers : List String} {out : Out}
+    (h : msgUpdateClientConfig s env cid relayers = (s', out)) : Tr s s' := by
+  unfold msgUpdateClientConfig at h
+  msplit h
+  msubst h
+  exact { log := .inl rfl }
+
+theorem tr_msgDeleteClientCreator {s s' : ChainState} {env : Env} {cid : Id} {out : Out}
+    (h : msgDeleteClientCreator s env cid = (s', out)) : Tr s s' := by
+  unfold msgDeleteClientCreator at h
+  msplit h
+  msubst h
+  exact {
+    log := .inl rfl
+    creatorNew := by
+      intro id h0 h1
+      simp only [FMap.get_del] at h1
+      split at h1
+      · exact absurd rfl h1
+      · exact absurd h0 h1 }
+
+theorem tr_msgRecoverClient {s s' : ChainState} {env : Env} {a b : Id} {out : Out}
+    (h : msgRecoverClient s env a b = (s', out)) : Tr s s' := by
+  unfold msgRecoverClient at h
+  msplit h
+
+theorem tr_msgUpdateClientParams {s s' : ChainState} {env : Env} {a : List String} {out : Out}
+    (h : msgUpdateClientParams s env a = (s', out)) : Tr s s' := by
+  unfold msgUpdateClientParams at h
+  msplit h
+  msubst h
+  exact { log := .inl rfl }
+
+theorem tr_msgUpdateConnParams {s s' : ChainState} {env : Env} {a : Nat} {out : Out}
+    (h : msgUpdateConnParams s env a = (s', out)) : Tr s s' := by
+  unfold msgUpdateConnParams at h
+  msplit h
+  msubst h
+  exact { log := .inl rfl }
+
+theorem tr_msgIBCSoftwareUpgrade {s s' : ChainState} {env : Env} {a : Bool} {out : Out}
+    (h : msgIBCSoftwareUpgrade s env a = (s', out)) : Tr s s' := by
+  unfold msgIBCSoftwareUpgrade at h
+  msplit h
+
+/-! ### every step -/
+
+theorem step_tr {s s' : ChainState} {op : Op} {out : Out} (h : step s op = (s', out)) : Tr s s' := by
+  unfold step at h
+  simp only at h
+  split at h
+  · msubst h; exact Tr.refl _
+  · split at h
+    · exact tr_msgConnOpenInit h
+    · exact tr_msgConnOpenTry h
+    · exact tr_msgConnOpenAck h
+    · exact tr_msgConnOpenConfirm h
+    · exact tr_msgChanOpenInit h
+    · exact tr_msgChanOpenTry h
+    · exact tr_msgChanOpenAck h
+    · exact tr_msgChanOpenConfirm h
+    · exact tr_msgChanCloseInit h
+    · exact tr_msgChanCloseConfirm h
+    · split at h
+      · split at h <;> (msubst h; exact Tr.refl _)
+      · msubst h; exact tr_sendV1 ‹_›
+    · exact tr_msgRecvPacket h
+    · exact tr_msgAcknowledgement h
+    · exact tr_msgTimeout h
+    · exact tr_msgTimeoutOnClose h
+    · unfold done at h
+      split at h
+      · msubst h; exact tr_writeAckV1 ‹_›
+      · split at h <;> (msubst h; exact Tr.refl _)
+    · exact tr_msgSendPacketV2 h
+    · exact tr_msgRecvPacketV2 h
+    · exact tr_msgAcknowledgementV2 h
+    · exact tr_msgTimeoutV2 h
+    · unfold done at h
+      split at h
+      · msubst h; exact tr_asyncWriteAckV2 ‹_›
+      · split at h <;> (msubst h; exact Tr.refl _)
+    · exact tr_msgCreateClient h
+    · exact tr_msgUpdateClient h
+    · exact tr_msgRegisterCounterparty h
+    · exact tr_msgUpdateClientConfig h
+    · exact tr_msgDeleteClientCreator h
+    · exact tr_msgRecoverClient h
+    · exact tr_msgUpdateClientParams h
+    · exact tr_msgUpdateConnParams h
+    · exact tr_msgIBCSoftwareUpgrade h
 
 end IbcVerif.Chain
